@@ -137,3 +137,23 @@ Theorem C06_routing_history_independent : forall v c ax st f, is_reply f = false
   stack_recv v c ax st f = stack_recv v c ax [] f.
 Proof. exact recv_history_independent_thm. Qed.
 Print Assumptions C06_routing_history_independent.
+
+(* re-entrancy: the pending request is forgotten BEFORE its callback runs, so a request the application sends again
+   (same entity, same id) from inside its handler for the answer is registered, and its own answer is delivered:
+   exactly the callback's entity for a result, exactly the error callback's for an error *)
+Theorem C06_retry_in_handler_registered : forall st l i ok err x fr to p ch,
+  let st' := process_then_callback st l i (resend l i ok err) in
+  reg_find st' l (Some i) = Some (l, i, ok, err) /\
+  registry_recv st' l (reply_feat x (Some "result") i fr to p ch) =
+    Some (match ok with Some c => [Up c] | None => [] end) /\
+  registry_recv st' l (reply_feat x (Some "error") i fr to p ch) =
+    Some (match err with Some c => [Up c] | None => [] end).
+Proof. exact retry_in_handler_registered_thm. Qed.
+Print Assumptions C06_retry_in_handler_registered.
+
+(* the other order (callback first, forget the id afterwards) loses the retried request: no answer to it, of any
+   type, is recognised as a reply *)
+Theorem C06_callback_then_remove_refuted : forall st l i ok err x t fr to p ch,
+  registry_recv (callback_then_remove st l i (resend l i ok err)) l (reply_feat x t i fr to p ch) = None.
+Proof. exact callback_then_remove_refuted_thm. Qed.
+Print Assumptions C06_callback_then_remove_refuted.
